@@ -14,6 +14,7 @@ import (
 
 	secp256k1 "gitlab.com/yawning/secp256k1-voi"
 	"gitlab.com/yawning/secp256k1-voi/secec"
+	"gitlab.com/yawning/secp256k1-voi/secec/bitcoin"
 )
 
 func init() {
@@ -21,11 +22,13 @@ func init() {
 }
 
 type apiPool struct {
-	pt   []*secp256k1.Point
-	sc   []*secp256k1.Scalar
-	buf  [][]byte
-	priv *secec.PrivateKey
-	pub  *secec.PublicKey
+	pt    []*secp256k1.Point
+	sc    []*secp256k1.Scalar
+	buf   [][]byte
+	priv  *secec.PrivateKey
+	pub   *secec.PublicKey
+	spriv *bitcoin.SchnorrPrivateKey
+	spub  *bitcoin.SchnorrPublicKey
 }
 
 type skelStep struct {
@@ -71,7 +74,17 @@ func (pl *apiPool) project() []any {
 		pubpt = hx(pl.pub.Point().UncompressedBytes())
 		pubcmp = hx(pl.pub.CompressedBytes())
 	}
-	return []any{"pt", pts, "sc", scs, "buf", bufs, "priv", priv, "privpub", privpub, "pub", pub, "pubpt", pubpt, "pubcmp", pubcmp}
+	spriv, spub, spubpt, sprivpub := "nil", "nil", "nil", "nil"
+	if pl.spriv != nil {
+		spriv = hx(pl.spriv.Bytes())
+		sprivpub = hx(pl.spriv.PublicKey().Bytes())
+	}
+	if pl.spub != nil {
+		spub = hx(pl.spub.Bytes())
+		spubpt = hx(pl.spub.Point().UncompressedBytes())
+	}
+	return []any{"pt", pts, "sc", scs, "buf", bufs, "priv", priv, "privpub", privpub, "pub", pub, "pubpt", pubpt, "pubcmp", pubcmp,
+		"spriv", spriv, "sprivpub", sprivpub, "spub", spub, "spubpt", spubpt}
 }
 
 // contentFor builds a full-size byte string of the class chosen by the model.
@@ -116,6 +129,18 @@ func contentFor(rng *rand.Rand, cls string, small []xy) []byte {
 		return be32(bigN)[:]
 	case "sc_max":
 		return be32(add(big2_256, -1))[:]
+	case "coords":
+		return append(append([]byte{}, be32(sp.x)[:]...), be32(sp.y)[:]...)
+	case "coords_bad":
+		return append(append([]byte{}, be32(sp.x)[:]...), be32(add(sp.y, 1))[:]...)
+	case "xonly":
+		return be32(sp.x)[:]
+	case "xonly_bad":
+		x := randBig(rng, bigP)
+		for sqrtP(yyOf(x)) != nil {
+			x = add(x, 1)
+		}
+		return be32(x)[:]
 	}
 	return []byte{1, 2, 3}
 }
@@ -352,6 +377,73 @@ func execAPI(c *ctx, rng *rand.Rand, pl *apiPool, s skelStep, small []xy) {
 			if err == nil {
 				pl.buf[s.B] = b
 			}
+		case "pt.IsYOdd":
+			reply = int(pl.pt[s.P].IsYOdd())
+		case "pt.FromCoords":
+			b := pl.buf[s.B]
+			if len(b) != 64 {
+				panic("harness: not a 64-byte buffer")
+			}
+			p, err := secp256k1.NewPointFromCoords((*[32]byte)(b[:32]), (*[32]byte)(b[32:]))
+			fail(err)
+			if err == nil {
+				pl.pt[s.V] = p
+			}
+		case "pt.Recover":
+			p, err := secp256k1.RecoverPoint(pl.sc[s.S], byte(s.C))
+			fail(err)
+			if err == nil {
+				pl.pt[s.V] = p
+			}
+		case "skey.New":
+			k, err := bitcoin.NewSchnorrPrivateKey(pl.buf[s.B])
+			fail(err)
+			if err == nil {
+				pl.spriv, pl.spub = k, k.PublicKey()
+			}
+		case "skey.FromECDSA":
+			if pl.priv == nil {
+				panic("harness: no private key object")
+			}
+			k := bitcoin.NewSchnorrPrivateKeyFromECDSA(pl.priv)
+			pl.spriv, pl.spub = k, k.PublicKey()
+		case "skey.Bytes":
+			if pl.spriv == nil {
+				panic("harness: no Schnorr private key object")
+			}
+			pl.buf[s.B] = pl.spriv.Bytes()
+		case "skey.Scalar":
+			if pl.spriv == nil {
+				panic("harness: no Schnorr private key object")
+			}
+			pl.sc[s.S] = pl.spriv.Scalar()
+		case "spub.New":
+			k, err := bitcoin.NewSchnorrPublicKey(pl.buf[s.B])
+			fail(err)
+			if err == nil {
+				pl.spub, pl.spriv = k, nil
+			}
+		case "spub.FromPoint":
+			k, err := bitcoin.NewSchnorrPublicKeyFromPoint(pl.pt[s.P])
+			fail(err)
+			if err == nil {
+				pl.spub, pl.spriv = k, nil
+			}
+		case "spub.FromECDSA":
+			if pl.pub == nil {
+				panic("harness: no public key object")
+			}
+			pl.spub, pl.spriv = bitcoin.NewSchnorrPublicKeyFromECDSA(pl.pub), nil
+		case "spub.Bytes":
+			if pl.spub == nil {
+				panic("harness: no Schnorr public key object")
+			}
+			pl.buf[s.B] = pl.spub.Bytes()
+		case "spub.Point":
+			if pl.spub == nil {
+				panic("harness: no Schnorr public key object")
+			}
+			pl.pt[s.V] = pl.spub.Point()
 		case "env.LoadBuf":
 			pl.buf[s.B] = contentFor(rng, s.Cls, small)
 			content = hx(pl.buf[s.B])
